@@ -230,6 +230,18 @@ class DF:
         self.pop = pop if pop is not None else object()      # identity of the row population (for len() comparisons)
 
     @property
+    def index(self):
+        return self.__dict__.get("_index", "range")
+
+    @index.setter
+    def index(self, tag):
+        self.__dict__["_index"] = tag
+        if tag == "range":
+            for v in self.__dict__.get("cols", {}).values():
+                if isinstance(v, Vec) and isinstance(v.aligned, str):
+                    v.aligned = True
+
+    @property
     def exact(self):
         return self.__dict__.get("_exact", False)
 
